@@ -59,7 +59,22 @@ Definition raw_meaning_eqb (r : rdoc) (m : list (bytes * bytes) * list ptable) :
               && list_eqb (list_eqb cell_eqb) (rt_rows t) (pt_rows p))
            (rd_tables r) (snd m).
 
+(* round 6: rows that do not carry one cell per column (short: trailing cells left out; over-long: tokens after the last
+   column).  The format requires complete rows, so there is no meaning to compare with: model against implementation
+   only, in raw mode, COLUMN by column (the raw object is one list per column; a short row adds nothing to the later
+   columns, tokens beyond the last column are never looked at). *)
+Definition colvals (j : nat) (rows : list (list cell)) : list cell :=
+  flat_map (fun r => match nth_error r j with Some c => [c] | None => [] end) rows.
+Definition rtable_cols_eqb (a b : rtable) : bool :=
+  beq (rt_name a) (rt_name b)
+  && list_eqb (fun x y : bytes * option bytes => beq (fst x) (fst y) && opt_eqb beq (snd x) (snd y)) (rt_cols a) (rt_cols b)
+  && forallb (fun j => list_eqb cell_eqb (colvals j (rt_rows a)) (colvals j (rt_rows b))) (seq 0 (length (rt_cols a))).
+Definition rdoc_cols_eqb (a b : rdoc) : bool :=
+  list_eqb pair_eqb (rd_pairs a) (rd_pairs b) && list_eqb beq (rd_enums a) (rd_enums b) && list_eqb beq (rd_structs a) (rd_structs b)
+  && list_eqb rtable_cols_eqb (rd_tables a) (rd_tables b).
+
 Inductive case :=
+  | CRawRows (text : bytes) (impl_raw impl_bin_raw : option rdoc)
   (* a logical document, one admissible rendering of it, and what the real reader returned for that text
      through a text-mode read (path / text file object), a binary file object, and both in raw mode *)
   | CRead (d : doc) (text : bytes) (impl_text impl_bin : option pdoc) (impl_raw impl_bin_raw : option rdoc).
@@ -69,6 +84,10 @@ Inductive case :=
             +4 lsem undefined (generator error) *)
 Definition run_case (c : case) : Z :=
   match c with
+  | CRawRows text ir ibr =>
+      let m3 := opt_eqb rdoc_cols_eqb (parse_raw text) ir in
+      let m4 := opt_eqb rdoc_cols_eqb (parse_binary_raw text) ibr in
+      ((if m3 && m4 then 0 else 1) + (if m3 then 0 else 32) + (if m4 then 0 else 64))%Z
   | CRead d text it ib ir ibr =>
       let m1 := opt_eqb pdoc_eqb (parse text) it in
       let m2 := opt_eqb pdoc_eqb (parse_binary text) ib in
